@@ -172,7 +172,27 @@ pub fn inputs_c18(r: &mut Rng, n: usize, _tier: &str, out: &mut dyn Write) {
                 let q = target as f64 / d as f64;
                 writeln!(out, "dmulf {} {}", dstr(d), h(q)).unwrap()
             }
-            22..=27 => writeln!(out, "dmulf {} {}", dstr(total_10ky(r)), h(factor_f64(r))).unwrap(),
+            22 => {
+                // the product (or the intermediate integer product total_ns x scaled factor) sits at a word-size limit:
+                // 2^63, 2^64, 2^62, 2^53 ns, a few hundred ns either side, for "decimal" factors with few digits and random
+                // ones (seeded change C18-8: a 64-bit fast path guarded by a ROUNDED estimate of the product, overflowing
+                // for products a few hundred ns above 2^63)
+                let q: f64 = match r.below(4) {
+                    0 => *r.pick(&[253.0, 1.03, 10.7, 3.0, 7.5, 1e3, 0.001, 1.5, 0.1, 12.5, 99.9, 1e6, 2.5e-4]),
+                    1 => (1 + r.below(100_000)) as f64 / *r.pick(&[1.0, 10.0, 100.0, 1000.0]),
+                    2 => (1 + r.below(1000)) as f64,
+                    _ => (1 + r.below(1 << 30)) as f64 / (1u64 << r.below(31)) as f64,
+                };
+                let lim: i128 = *r.pick(&[1i128 << 63, 1i128 << 63, 1i128 << 64, 1i128 << 62, 1i128 << 53]);
+                let target = lim + r.range_i64(-300, 700) as i128;
+                let d = ((target as f64) / q) as i128 + r.range_i64(-2, 2) as i128;
+                let sd = if r.chance(1, 4) { -1 } else { 1 };
+                if d.abs() > 100 * NPC || d == 0 {
+                    continue; // the clause is about durations up to 10 000 years
+                }
+                writeln!(out, "dmulf {} {}", dstr(sd * d), h(if r.chance(1, 5) { -q } else { q })).unwrap()
+            }
+            23..=27 => writeln!(out, "dmulf {} {}", dstr(total_10ky(r)), h(factor_f64(r))).unwrap(),
             32 => {
                 // a tiny duration times a huge factor whose product is still representable (or just not)
                 let lim = match r.below(3) { 0 => 3, 1 => 1000, _ => 20_000 };
